@@ -62,7 +62,8 @@ PROPS = {
                      "Goat.C12H.claim_second_pays_zero", "Goat.C12H.dequeue_spec", "Goat.C12H.processRequests_spec", "Goat.C12H.beginBlock_spec", "Goat.C12H.apply_spec",
                      "Goat.C12H.history", "Goat.C12H.conservation", "Goat.C12H.conservation_combined", "Goat.C12H.nonnegativity", "Goat.C12H.conservation_from_genesis"],
         "streams": [{"name": "locking-rewards", "quick": 2500, "thorough": 40000, "seeds": 16},
-                    {"name": "locking", "quick": 1500, "thorough": 20000, "seeds": 8}],
+                    {"name": "locking", "quick": 1500, "thorough": 20000, "seeds": 8},
+                    {"name": "app-export", "quick": 700, "thorough": 4000, "seeds": 8}],
         "assumptions": ["vote infos carry non-negative powers with a positive total (CometBFT delivers the last commit of a non-empty set)"],
     },
     "C13": {
